@@ -56,7 +56,7 @@ func sameTypeConv(t *dyn.TypeOps) *dyn.ConvOp {
 
 func runC10(c *core.Ctx) {
 	r := c.Rand(10)
-	hists := c.Pick(150, 3000)
+	hists := c.Pick(150, 5000)
 	if c.Mode == "race" {
 		hists = c.Pick(60, 600)
 	}
